@@ -9,10 +9,7 @@ import (
 // File-system intrinsics (DESIGN.md 3.2). Grown per obligation.
 
 func registerFS(e *Engine) {
-	// os.MkdirAll: directory creation succeeds (I/O faults are outside every quantifier).
-	e.Intr["os.MkdirAll"] = func(c *Call) []*State {
-		return c.Return(Iface{})
-	}
+	registerFSWorld(e)
 }
 
 // bufio.Scanner over a strings.Reader (ScanLines): the scanner is a heap object holding
